@@ -1,4 +1,4 @@
-import CssVerif.Model.Num
+import CssVerif.Model.NumColor
 open CssVerif.Proto CssVerif.Num
 
 def showErr : Err → String
@@ -31,6 +31,30 @@ def exc (r : Except Err Cps) : String :=
   | .ok t => "OK " ++ encCps t
   | .error e => showErr e
 
+def showRat (q : Rat) : String := toString q.num ++ "/" ++ toString q.den
+
+def showRgba (c : Rgba) : String := showRat c.r ++ " " ++ showRat c.g ++ " " ++ showRat c.b ++ " " ++ showRat c.a
+
+def showCErr : ColorErr → String
+  | .malformed => "MALFORMED"
+  | .valueError => "ERR ValueError"
+  | .keyError => "ERR KeyError"
+
+def ctok? (w : String) : Option CTok :=
+  if w == "C" then some .comma else if w == "R" then some .rparen else if w == "S" then some .s
+  else if w == "M" then some .comment else if w == "O" then some .other
+  else match w.splitOn ":" with
+    | ["F", h] => (decCps h).map CTok.func
+    | ["N", h] => (decCps h).map CTok.num
+    | ["P", h] => (decCps h).map CTok.pct
+    | _ => none
+
+def ctoks? : List String → Option (List CTok)
+  | [] => some []
+  | w :: t => match ctok? w, ctoks? t with
+    | some a, some l => some (a :: l)
+    | _, _ => none
+
 def handle (line : String) : String :=
   match words line with
   | ["num", olz, mch, sp, lis, ty, tv] =>
@@ -53,6 +77,36 @@ def handle (line : String) : String :=
   | ["simple", olz, mch, sp, lis, ty, tv] =>
     match prefs? olz mch sp lis, itemType? ty, decCps tv with
     | some p, some t, some s => "OK " ++ encCps (fmtSimple p t s)
+    | _, _, _ => "bad-op"
+  | "cfunc" :: olz :: mch :: sp :: lis :: toks =>
+    match prefs? olz mch sp lis, ctoks? toks with
+    | some p, some ts =>
+      match parseColorFunc ts with
+      | none => "MALFORMED"
+      | some items =>
+        match funcChannels items with
+        | .error e => showCErr e
+        | .ok (c, tie) =>
+          match fmtColorFunc exactOps p items with
+          | .error e => showErr e
+          | .ok text => "OK " ++ showRgba c ++ (if tie then " 1 " else " 0 ") ++ encCps text
+    | _, _ => "bad-op"
+  | ["hashchan", tv] =>
+    match decCps tv with
+    | some v => if !isHexColor v then "NOMATCH" else
+      match hashChannels v with
+      | .ok c => "OK " ++ showRgba c
+      | .error e => showCErr e
+    | none => "bad-op"
+  | ["kw", tv] =>
+    match decCps tv with
+    | some v => match keywordChannels v with
+      | .ok c => "OK " ++ showRgba c
+      | .error e => showCErr e
+    | none => "bad-op"
+  | ["csimple", olz, mch, sp, lis, ty, tv] =>
+    match prefs? olz mch sp lis, itemType? ty, decCps tv with
+    | some p, some t, some s => "OK " ++ encCps (fmtColorSimple p t s)
     | _, _, _ => "bad-op"
   | ["string", tv] => match decCps tv with
     | some s => "OK " ++ encCps (helperString s)
